@@ -465,6 +465,43 @@ func (c16) Run(ctx *Ctx, ci interface{}) (o Outcome) {
 			o.Fail("orf-search:not-an-orf:SeqBag.LongestORF", "LongestORF returned %d nt (%s), longer than any ATG...first in-frame stop (%d nt)", orf.Length(), seqStr(orf), want)
 			return
 		}
+		if c.Cli != "" {
+			// the same clause for `goalign orf`: what it writes is one sequence, a longest ORF of the input
+			args := []string{"orf", "-i", "in.fa", "--reverse=" + fmt.Sprint(c.Reverse)}
+			res := runInProc(ctx, args, map[string]string{"in.fa": fastaOf(c.Names, all)}, 1, 1700000000e9)
+			o.Add("command_line_executions", 1)
+			what := "goalign " + strings.Join(args, " ")
+			for _, p := range res.sr.Panics {
+				if p.Exit < 0 {
+					o.Fail("panic:cli:orf", "%s: goroutine g%d panicked: %s\n%s", what, p.Gid, p.Panic, p.Stack)
+					return
+				}
+			}
+			failed := res.err != nil || res.exit >= 0
+			gn, gs := parseFastaText(res.files["stdout.txt"])
+			switch {
+			case want == 0 && !failed && len(gs) > 0:
+				o.Fail("orf-search:not-an-orf:cli:orf", "%s prints %q; no input sequence holds an ATG...in-frame stop", what, gs)
+				return
+			case want > 0 && failed:
+				o.Fail("orf-search:missed:cli:orf", "%s fails (%v, exit %d) but a sequence contains an ORF of %d nt", what, res.err, res.exit, want)
+				return
+			case want > 0:
+				if len(gs) != 1 || len(gn) != 1 {
+					o.Fail("orf-search:cli:orf", "%s prints %d sequences, one is expected: %q", what, len(gs), gs)
+					return
+				}
+				found := false
+				for _, q := range all {
+					found = found || strings.Contains(strings.ToUpper(q), strings.ToUpper(gs[0])) || (c.Reverse && strings.Contains(strings.ToUpper(revcompStr(q)), strings.ToUpper(gs[0])))
+				}
+				if len(gs[0]) != want || longestORFLen(gs[0]) != want || !found {
+					o.Fail("orf-search:not-longest:cli:orf", "%s prints %q (%d nt; part of an input sequence: %v); the longest ATG...first in-frame stop of the input has %d nt", what, clip(gs[0], 120), len(gs[0]), found, want)
+					return
+				}
+			}
+			o.Add("command_line_orf_checked", 1)
+		}
 	}
 
 	ref := c.runPhase(ctx, 1, SchedCfg{Seed: 1, Policy: PolFIFO, MaxSteps: budget})
